@@ -10,8 +10,8 @@ every run; nothing is imported or executed.  What is extracted:
       `if not (type_match and basis_match and addressing_match): return ...`),
     - direct tests (`if new_ch_obj.eom_config.mod_bandwidth != cast(..., old_ch_obj.eom_config).mod_bandwidth`),
     - the loop `for param_ in params_to_check: if getattr(new_ch_obj, param_) != getattr(old_ch_obj, param_)`
-      expanded with the `params_to_check = [...]` literal and every `params_to_check.append("...")`
-      (with the guard of the `if` the append sits in),
+      expanded with the `params_to_check = [...]` literal and every `params_to_check.append("...")` /
+      `.extend([...])` of literals (with the guard of the `if` it sits in),
     - the whole-EOM-config comparison of the parametrized branch (`new_eom_config != old_eom_config`,
       both built with `dataclasses.asdict(<x>.eom_config)`) and the keys popped from it;
 * presence tests `if new_ch_obj.eom_config is None: return <error>` (parameter `eom_config`);
@@ -178,7 +178,14 @@ class _Matcher(ast.NodeVisitor):
                     raise TableError(f"{tgt}.append with a non-literal argument: {_norm(v)}")
                 self.lists[tgt].append((v.args[0].value, tuple(self.guards)))
                 return
-            if meth in ("extend", "insert", "remove", "pop", "clear") and tgt in self.lists:
+            if meth == "extend" and tgt in self.lists:
+                a = v.args[0] if len(v.args) == 1 else None
+                if not (isinstance(a, (ast.List, ast.Tuple)) and all(
+                        isinstance(x, ast.Constant) and isinstance(x.value, str) for x in a.elts)):
+                    raise TableError(f"{tgt}.extend with a non-literal argument: {_norm(v)}")
+                self.lists[tgt].extend((x.value, tuple(self.guards)) for x in a.elts)
+                return
+            if meth in ("insert", "remove", "pop", "clear") and tgt in self.lists:
                 raise TableError(f"unsupported mutation of {tgt}: {_norm(v)}")
             if meth == "pop" and tgt in self.asdict and v.args and isinstance(v.args[0], ast.Constant):
                 self.popped.append((f"{self.asdict[tgt]}:{v.args[0].value}", tuple(self.guards)))
@@ -381,6 +388,14 @@ def extract(src: str | None = None) -> dict:
             v = n.comparators[0].value
             if v not in renamed:
                 renamed.append(v)
+        # `call.name in ("delay", "align")`
+        if isinstance(n, ast.Compare) and isinstance(n.left, ast.Attribute) and n.left.attr == "name" \
+                and isinstance(n.left.value, ast.Name) and n.left.value.id == "call" \
+                and len(n.ops) == 1 and isinstance(n.ops[0], ast.In) \
+                and isinstance(n.comparators[0], (ast.Tuple, ast.List, ast.Set)):
+            for el in n.comparators[0].elts:
+                if isinstance(el, ast.Constant) and el.value not in renamed:
+                    renamed.append(el.value)
     # the call list that is replayed
     replayed = ""
     for n in ast.walk(bsm):
